@@ -1132,6 +1132,104 @@ fn binary_graphs_layer(rep: &mut Report) {
     rep.layer(l);
 }
 
+
+// ------------------------------------------------------------------ across modules
+
+const XLIB: &str = "pub type Shape { Circle(r: Int) Square(side: Int) }
+pub type Figure = Shape
+pub type Figs = List(Shape)
+pub type Pred = fn(Shape) -> Bool
+pub type Wrap(a) { Wrap(inner: a) }
+pub type WInt = Wrap(Int)
+pub type Pairs(a) = List(#(a, Shape))
+pub fn mk() -> Shape { Circle(1) }
+pub fn id(x: a) -> a { x }
+pub fn pick(a: Figure, b: Figs) -> Figure { a }
+pub fn area(s) { case s { Circle(r: r) -> r * r Square(side: x) -> x * x } }
+pub const k = 1
+";
+
+/// Functions of a module that uses `lib` through one import form; (function text with `{Q}` for
+/// the qualifier prefix, expected type of the function).
+fn cross_cases() -> Vec<(&'static str, RTy)> {
+    let shape = || Named("Shape".into(), vec![]);
+    let wrap = |t: RTy| Named("Wrap".into(), vec![t]);
+    let f = |ps: Vec<RTy>, r: RTy| Fn(ps, Box::new(r));
+    vec![
+        ("fn c1(x: {Q}Figure) { x }", f(vec![shape()], shape())),
+        ("fn c2(x: {Q}Figs) { x }", f(vec![List(Box::new(shape()))], List(Box::new(shape())))),
+        ("fn c3(p: {Q}Pred, s: {Q}Shape) { p(s) }", f(vec![f(vec![shape()], Bool), shape()], Bool)),
+        ("fn c4(w: {Q}WInt) { w.inner }", f(vec![wrap(Int)], Int)),
+        ("fn c5() { {Q}mk() }", f(vec![], shape())),
+        ("fn c6() { {Q}id(1) }", f(vec![], Int)),
+        ("fn c7() { {Q}k }", f(vec![], Int)),
+        ("fn c8() { {Q}Wrap(2).inner }", f(vec![], Int)),
+        ("fn c9() { {Q}pick({Q}mk(), []) }", f(vec![], shape())),
+        ("fn c10() { {Q}Wrap(\"s\") }", f(vec![], wrap(Str))),
+        ("fn c11(x: {Q}Pairs(Int)) { x }", f(vec![List(Box::new(Tuple(vec![Int, shape()])))], List(Box::new(Tuple(vec![Int, shape()]))))),
+        ("fn c12(x) { {Q}area(x) }", f(vec![shape()], Int)),
+        ("fn c13(x: {Q}Figure) -> {Q}Figs { [x] }", f(vec![shape()], List(Box::new(shape())))),
+        ("fn c14(s) { case s { {Q}Circle(r: n) -> n {Q}Square(side: n) -> n } }", f(vec![shape()], Int)),
+        ("fn c15(w: {Q}Wrap({Q}Figure)) { w.inner }", f(vec![wrap(shape())], shape())),
+    ]
+}
+
+fn cross_module_layer(rep: &mut Report) {
+    // the last form imports the aliases only: what their bodies name is not visible in the using module
+    let only_aliases: &[usize] = &[0, 1, 10, 12];
+    let forms: Vec<(&str, &str, &str)> = vec![
+        ("unqualified aliases only", "import lib.{type Figure, type Figs, type Pairs}\n", ""),
+        ("qualified", "import lib\n", "lib."),
+        ("module alias", "import lib as l\n", "l."),
+        ("same module", XLIB, ""),
+        ("unqualified", "import lib.{type Figure, type Figs, type Pred, type Shape, type WInt, type Wrap, type Pairs, mk, id, pick, area, k, Circle, Square, Wrap}\n", ""),
+    ];
+    let cases = cross_cases();
+    let mut l = Layer { name: "across-modules".into(), exhaustive: true, ..Default::default() };
+    for (fname, import, q) in &forms {
+        for order in 0..2 {
+            // the using module's functions in source order and reversed
+            let selected = |k: usize| *fname != "unqualified aliases only" || only_aliases.contains(&k);
+            let mut fns: Vec<String> = cases.iter().enumerate().filter(|(k, _)| selected(*k)).map(|(_, (t, _))| t.replace("{Q}", q)).collect();
+            if order == 1 {
+                fns.reverse();
+            }
+            let main = format!("{import}{}\n", fns.join("\n"));
+            let ws = crate::ana::ws::Workspace::single(&[("main", &main), ("lib", XLIB)]);
+            let files = ws.files();
+            let host = ws.host();
+            let an = host.snapshot();
+            l.states += 1;
+            l.executions += 1;
+            if let Ok(Ok(d)) = catch(|| an.diagnostics(files[0].id)) {
+                if !d.is_empty() {
+                    rep.machinery(format!("cross-module program ({fname}) has syntax errors: {:?}", d.iter().take(2).collect::<Vec<_>>()));
+                    continue;
+                }
+            }
+            for (k, (_, want)) in cases.iter().enumerate() {
+                if !selected(k) {
+                    continue;
+                }
+                let name = format!("fn c{}(", k + 1);
+                let off = main.find(&name).unwrap() + 3;
+                l.transitions += 1;
+                let got = hover_type(&an, files[0].id, off);
+                let ok = match &got {
+                    Ok(Some(g)) => g.strip_prefix(&format!("fn c{}", k + 1)).map(|r| format!("fn{r}")).and_then(|s| parse_ty(&s)).map_or(false, |g| alpha_eq(&g, want)),
+                    _ => false,
+                };
+                if !ok {
+                    let tags = ["alias", "alias of a list", "alias of a function type", "alias of a generic instance", "function", "generic function", "module constant used as a value", "field of a constructed generic record", "function with alias parameters", "generic constructor", "generic alias", "unannotated function", "alias in a return annotation", "constructor patterns", "generic record of an alias"];
+                    rep.violation(Violation { class: "function-type".into(), key: format!("across-modules|{fname}|{}", tags.get(k).copied().unwrap_or("?")), witness: json!({"cross_form": fname, "order": order, "case": k}), detail: format!("[{fname} import] `{}`: shown {got:?}, Gleam's type is `{}`", cases[k].0.replace("{Q}", q), show(want)) });
+                }
+            }
+        }
+    }
+    l.bound = format!("{} functions using another module's aliases (plain, of a list, of a function type, generic, of a generic instance), generic record, functions, constant and constructors x 5 forms (declared in the same module, qualified import, module alias, unqualified import, unqualified import of the aliases alone) x 2 orders of the using module's functions", cases.len());
+    rep.layer(l);
+}
+
 fn permutations(n: usize) -> Vec<Vec<usize>> {
     fn rec(cur: &mut Vec<usize>, n: usize, out: &mut Vec<Vec<usize>>) {
         if cur.len() == n {
@@ -1350,6 +1448,7 @@ pub fn run(tier: Tier) -> i32 {
 
     graphs_layer(&mut rep, tier);
     binary_graphs_layer(&mut rep);
+    cross_module_layer(&mut rep);
     rep.distinct_nontrivial = exprs.len() as u64;
     rep.distinct_outcomes = 1 + rep.violations.iter().map(|v| v.key.clone()).collect::<BTreeSet<_>>().len() as u64;
     rep.rule = "each expression is distinct by text; its type is known by construction (typing rules); shown types are parsed and compared up to a bijective renaming of type variables".into();
